@@ -375,6 +375,11 @@ impl Node {
                 from_pid,
                 to_pid,
                 reason,
+            }
+            | ControlMessage::Exit2 {
+                from_pid,
+                to_pid,
+                reason,
             } => {
                 if let OwnedTerm::Pid(from) = from_pid
                     && let OwnedTerm::Pid(to) = to_pid
